@@ -59,7 +59,7 @@ MANIFEST = {
 }
 ASSUMPTIONS = [
     "triangularize_inner_block is treated as an arbitrary pair of permutations (checked to be permutations on every case)",
-    "the matrix passed to blaze is a numpy bool array whose shape agrees with the id tuples (what calculate_incidence_matrix produces)",
+    "the matrix passed to blaze is a numpy array of zeros and ones (bool, or an integer/float type holding 0/1) whose shape agrees with the id tuples",
     "an equation reading its own LHS at zero shift is not counted as a violation (the incidence matrix cannot distinguish it from the LHS occurrence)",
 ]
 
